@@ -369,7 +369,8 @@ def run_multi_source(ds_a, ds_b, acc, rng):
 
 def run_session_default_handler(ds, acc, rng):
     """The data handler a trading session builds for itself (no data_handler argument, $QSTRADER_CSV_DATA_DIR) answers
-    for every file of the directory like the data source does - whatever the universe and the dates of the session."""
+    like the data source does for every asset that is a member of the universe at some time up to the end of the last
+    simulated day - whenever it joins."""
     if not ds.adjust:
         return          # the default source serves adjusted prices
     from qstrader.trading.backtest import BacktestTradingSession
@@ -401,7 +402,10 @@ def run_session_default_handler(ds, acc, rng):
         else:
             os.environ['QSTRADER_CSV_DATA_DIR'] = old
     handler = sess.data_handler
+    members = set(universe.get_assets(tstamp(end) + pd.Timedelta(hours=23)))     # judged: every asset the session can ever trade
     for asset in assets:
+        if asset not in members:
+            continue
         for t in instants(rng, ds.ev[asset])[:25]:
             try:
                 got = handler.get_asset_latest_bid_price(tstamp(t), asset)
